@@ -48,6 +48,8 @@ pub const CONTEXTS: &[(&str, &str)] = &[
 
 /// payload fragments over the names pv, pw, pf, pg, pe, pi
 pub const PAYLOADS: &[&str] = &[
+    "pv := [3, 4]\npo := {\"a\": 5}\nfn pf() {\nreturn 6\n}\nprint(pv[1] - 1)\nprint(po.a - 1)\nprint(pf() - 1)\nprint((2) - 1)\nprint(\"ab\"->len() - 1)\nprint(pv[0] - 2 - pv[1])\nprint([pv[1] - 1, po[\"a\"] - 2])\n",
+    "pv := [3, 4]\nprint(pv[0] + 1 == 4)\nprint(pv[1] * 2 != -8)\nprint(pv[0] < -1 || pv[1] >= 10)\nprint(-pv[0] == -3)\nprint(pv[0] % 2 == 1 && !false)\n",
     "print(1 + 2 * 3)\n",
     "print(\"a\" + \"b\")\n",
     "print([1] + [2])\n",
@@ -352,8 +354,22 @@ impl Check for C01 {
         flush(ctx, &mut cases, self)?;
         ctx.extra.insert("repository_scripts_in_contexts".into(), json!(n_wrapped));
         // (3) evaluation order of the operand positions of every construct
-        let eo = super::evalorder::cases(4);
+        let mut eo = super::evalorder::cases(4);
+        for p in super::evalorder::SELF_READ_PROGRAMS {
+            eo.push(Case::new(p.to_string(), 4, "an index, key or bound that reads the container it is applied to".to_string()));
+        }
         ctx.judge(eo, |c, r, o| self.oracle(c, r, o))?;
+        // (3b) every payload and every repository script written without the separators its tokens
+        // do not need
+        let mut dn: Vec<Case> = vec![];
+        let scripts = crate::repo_tests::load(&format!("{}/tests/stdout", crate::subject::repo()));
+        for src in PAYLOADS.iter().map(|p| p.to_string()).chain(scripts.into_iter().map(|t| t.src)) {
+            if let Some(d) = crate::layout::dense(&src) {
+                dn.push(Case::new(d, 4, "written without optional separators".to_string()));
+            }
+        }
+        ctx.extra.insert("dense_spellings".into(), json!(dn.len()));
+        ctx.judge(dn, |c, r, o| self.oracle(c, r, o))?;
         // (2) statement sequences
         let stats = bfs(ctx, &Seq, seq_len, |c, r, o| self.oracle(c, r, o), |_c, _p| {})?;
         ctx.extra.insert(
